@@ -1027,3 +1027,68 @@ func Recommit(cs consensus.State, b *types.Block) {
 	}
 	Grind(cs, b, true)
 }
+
+// Absorb makes the builder treat the given (pooled) transactions as if they
+// came earlier in the block: their inputs count as spent and their siacoin
+// outputs can be spent as ephemeral outputs. Nothing is added to the block.
+func (bb *BlockBuilder) Absorb(txns []types.Transaction, v2txns []types.V2Transaction) {
+	for _, txn := range txns {
+		for i, o := range txn.SiacoinOutputs {
+			bb.eph = append(bb.eph, ephOut{txn.SiacoinOutputID(i), o, ActorOf(o.Address), false})
+		}
+		for _, sci := range txn.SiacoinInputs {
+			bb.spentSC[sci.ParentID] = true
+		}
+		for _, sfi := range txn.SiafundInputs {
+			bb.spentSF[sfi.ParentID] = true
+		}
+		for _, fcr := range txn.FileContractRevisions {
+			bb.usedFC[fcr.ParentID] = true
+		}
+		for _, sp := range txn.StorageProofs {
+			bb.usedFC[sp.ParentID] = true
+		}
+	}
+	for _, txn := range v2txns {
+		txid := txn.ID()
+		for i, o := range txn.SiacoinOutputs {
+			bb.eph = append(bb.eph, ephOut{txn.SiacoinOutputID(txid, i), o, ActorOf(o.Address), true})
+		}
+		for _, sci := range txn.SiacoinInputs {
+			bb.spentSC[sci.Parent.ID] = true
+		}
+		for _, sfi := range txn.SiafundInputs {
+			bb.spentSF[sfi.Parent.ID] = true
+		}
+		for _, fcr := range txn.FileContractRevisions {
+			bb.usedFC[fcr.Parent.ID] = true
+		}
+		for _, fcr := range txn.FileContractResolutions {
+			bb.usedFC[fcr.Parent.ID] = true
+		}
+	}
+}
+
+// Reset drops the transactions built so far but keeps the spent/ephemeral
+// bookkeeping (used to build several sets against one pool).
+func (bb *BlockBuilder) Reset() {
+	bb.Txns, bb.V2Txns, bb.TxnKinds, bb.V2TxnKinds = nil, nil, nil, nil
+}
+
+// DropEphemeral forgets the ephemeral outputs absorbed so far (their
+// creating transactions are not part of what is being built).
+func (bb *BlockBuilder) DropEphemeral() { bb.eph = nil }
+
+// V1Spend builds a signed v1 transaction moving the whole element to another actor.
+func V1Spend(cs consensus.State, e types.SiacoinElement, who, to int, tag int) types.Transaction {
+	txn := types.Transaction{
+		SiacoinInputs:  []types.SiacoinInput{{ParentID: e.ID, UnlockConditions: Actors[who].UC}},
+		SiacoinOutputs: []types.SiacoinOutput{{Address: Actors[to].Addr, Value: e.SiacoinOutput.Value}},
+		ArbitraryData:  [][]byte{[]byte(fmt.Sprintf("NonSia-conflict-%d", tag))},
+	}
+	signV1(cs, &txn, map[types.Hash256]int{types.Hash256(e.ID): who})
+	return txn
+}
+
+// CopyV1 deep-copies a v1 transaction through its encoding.
+func CopyV1(t types.Transaction) types.Transaction { return copyV1Txns([]types.Transaction{t})[0] }
